@@ -1,5 +1,6 @@
 import ScVerif.Base.Line
 import ScVerif.C03.Model
+import ScVerif.C03.Equiv
 /-!
 Driver handler for C03.  Messages are pairs of integers `(l, t)` (two independent fields); a plain integer `k`
 stands for `(k, 0)`.
@@ -8,13 +9,17 @@ Request: `run <init> <progs> <subs> <sched>`
 * init   `-` or `id:val,...`  (val = `l` or `l.t`)
 * progs  writers separated by `|`, operations by `;` (empty writer `-`): `u/<id>/s<k>` set to (k,0), `u/<id>/a<k>` add k
          to the first field (absent = 0), `u/<id>/c<e>.<v>` set to (v,0) if the current value is (e,0) (else no commit),
-         `u/<id>/w<l>.<t>` write the pair, `d/<id>`
+         `u/<id>/w<l>.<t>` write the pair, `u/<id>/z<e>.<v>` set to (v,0) if the current value, an absent item read as
+         the empty message (0,0), is (e,0) (a create-or-update overtaken by rivals: its re-validation), `d/<id>`
 * subs   `-` or comma separated `<updatesOnly 0|1><lossy 0|1><mask n|l|t|b>` per subscriber
 * sched  `-` or comma separated steps: `c<t>` commit of writer t, `n<k>` snapshot / `d<k>` next delivery of the
          k-th publication in flight (commit order), `s<i>` subscribe, `x<i>` cancel, `r<i>` consumer i takes one
          event, `R` every consumer drains its stage
 
-         a subscriber may carry a 4th letter: its include function `n|a|b|c|d` (see `parseIncl?`)
+         a subscriber may carry a 4th letter: its include function `n|a|b|c|d` (see `parseIncl?`), and a 5th: the
+         resource's equivalence `n` none, `e` equal bodies, `l` / `t` equal first / second field, as `Collection.Pull`
+         applies it (the change's own old value against its new value); `E|L|T`: the same as `Value.Pull` applies it
+         (the value sent last against the new value)
 Answer: `store=…|S0=<live|gone|unreg>:<view>:<events>|…|pubs=<in flight>|lock=<0|1>|ord=<0|1>`
 (view and events are what the consumer RECEIVES: after include and read mask)
 
@@ -49,6 +54,13 @@ def parseF? (s : String) : Option (Option V → Option V) :=
       let e ← parseInt? e
       let v ← parseInt? v
       pure (fun old => if old = some (e, 0) then some (v, 0) else none)
+    | _ => none
+  else if s.startsWith "z" then
+    match ((s.drop 1).toString).splitOn "." with
+    | [e, v] => do
+      let e ← parseInt? e
+      let v ← parseInt? v
+      pure (fun old => if old.getD (0, 0) = (e, 0) then some (v, 0) else none)
     | _ => none
   else none
 
@@ -93,8 +105,31 @@ def parseIncl? (c : Char) : Option (Option (Nat → V → Bool)) :=
   else if c = 'd' then some (some (fun i v => i % 2 == 0 && decide (v.2 < 5)))
   else none
 
-def parseSub? (s : String) : Option (SubOpts V) :=
+/-- `Comparer.Compare` on possibly absent messages: an absent message is equivalent to an absent one only -/
+def cmpOf (eq : V → V → Bool) : Option V → Option V → Bool
+  | none, none => true
+  | some a, some b => eq a b
+  | _, _ => false
+
+/-- the resource's equivalence: (applied as `Value.Pull` does?, the comparer) -/
+def parseEq? (c : Char) : Option (Option (Bool × (Option V → Option V → Bool))) :=
+  let isVal := c.isUpper
+  let c := c.toLower
+  if c = 'n' then some none
+  else if c = 'e' then some (some (isVal, cmpOf (fun a b => a == b)))
+  else if c = 'l' then some (some (isVal, cmpOf (fun a b => a.1 == b.1)))
+  else if c = 't' then some (some (isVal, cmpOf (fun a b => a.2 == b.2)))
+  else none
+
+def parseSubEq? (s : String) : Option (Option (Bool × (Option V → Option V → Bool))) :=
   match s.toList with
+  | [_, _, _, _, q] => parseEq? q
+  | [_, _, _, _] => some none
+  | [_, _, _] => some none
+  | _ => none
+
+def parseSub? (s : String) : Option (SubOpts V) :=
+  match s.toList.take 4 with
   | [u, l, m] => do
     let u ← (if u = '1' then some true else if u = '0' then some false else none)
     let l ← (if l = '1' then some true else if l = '0' then some false else none)
@@ -110,6 +145,9 @@ def parseSub? (s : String) : Option (SubOpts V) :=
 
 def parseSubs? (s : String) : Option (List (SubOpts V)) :=
   if s = "-" || s = "" then some [] else (s.splitOn ",").mapM parseSub?
+
+def parseSubEqs? (s : String) : Option (List (Option (Bool × (Option V → Option V → Bool)))) :=
+  if s = "-" || s = "" then some [] else (s.splitOn ",").mapM parseSubEq?
 
 inductive Tok
   | act (a : Act)
@@ -191,18 +229,22 @@ def handle (toks : List String) : String :=
   | none =>
   match toks with
   | ["run", init, progs, subs, sched] =>
-    match parseInit? init, (progs.splitOn "|").mapM parseProg?, parseSubs? subs, parseSched? sched with
-    | some init, some progs, some subs, some sched =>
+    match parseInit? init, (progs.splitOn "|").mapM parseProg?, parseSubs? subs, parseSched? sched, parseSubEqs? subs with
+    | some init, some progs, some subs, some sched, some eqs =>
       let s₀ : Nat → Option V := fun i => (init.find? (fun kv => kv.1 == i)).map (·.2)
       let c₀ : Cfg V := initCfg s₀ (fun t => progs.getD t []) (fun s => subs.getD s ⟨false, false, id, none⟩)
       let (c, acts) := expand subs.length c₀ sched []
       let ss := (List.range subs.length).map (fun s =>
         let sb := c.subs s
         let st := if sb.cancelled then "gone" else if sb.registered then "live" else "unreg"
-        s!"S{s}={st}:{showView sb.obsView}:" ++ ";".intercalate (sb.obs.map (showEv id)))
+        let (view, evs) := match eqs.getD s none with
+          | none => (sb.obsView, sb.obs)
+          | some (false, cmp) => (sb.obsViewEqColl cmp, sb.obsEqColl cmp)
+          | some (true, cmp) => (sb.obsViewEqVal cmp, sb.obsEqVal cmp)
+        s!"S{s}={st}:{showView view}:" ++ ";".intercalate (evs.map (showEv id)))
       s!"store={showView c.store}|" ++ "|".intercalate ss ++
         s!"|pubs={c.pubs.length}|lock={if c.lock.isSome then 1 else 0}|ord={if ordered c₀ acts then 1 else 0}"
-    | _, _, _, _ => "!bad-op"
+    | _, _, _, _, _ => "!bad-op"
   | _ => "!bad-op"
 
 end ScVerif.C03
